@@ -108,7 +108,7 @@ class _Rq:
                   'everything else, without one the status endpoint does not exist (404); every accepted write bumps metadata.resourceVersion',
                   'patches.Patch.as_json_patch by contracts A5/A5j, finalizers.block_deletion/allow_deletion by contracts F1/F2 (run as real code here)',
                   'references.Resource.get_url by contract (run as real code)'],
-         assumes=['a resource with / without the status subresource; a patch of the shapes {metadata+spec fields, metadata+spec+status fields, fns '
+         assumes=['a resource with / without the status subresource; a patch of the shapes {metadata+spec fields, metadata+spec+status fields, metadata+spec fields and status: None, fns '
                   'only, fields and fns}; fns in {[block_deletion], [allow_deletion], [block_deletion, a status edit]}; the event body the patch was '
                   'computed for is current, or a foreign writer has added a finalizer since; at most one more foreign write while a JSON-patch request '
                   'is in flight; every request is answered by the server model or with a scripted 404 / 422 / 500 / 403; silent in {False, True}',
@@ -143,7 +143,7 @@ def A3n(vc):
                                    subresources=frozenset({'status', 'scale'}) if as_sub else frozenset({'scale'}))
     url_main = resource.get_url(namespace=NS, name=NAME)
     url_status = resource.get_url(namespace=NS, name=NAME, subresource='status')
-    shape = ['fields', 'fields+status', 'fns', 'both'][vc.nondet(4, 'patch: metadata+spec / + status fields / fns only / fields and fns')]
+    shape = ['fields', 'fields+status', 'fns', 'both', 'fields-status'][vc.nondet(5, 'patch: metadata+spec / + status fields / fns only / fields and fns / metadata+spec and the removal of the status (None)')]
     has_fns = shape in ('fns', 'both')
     fnkind = ['block', 'allow', 'block+status'][vc.nondet(3, 'fns: block deletion / allow deletion / block deletion and edit the status')] if has_fns else None
     stale = has_fns and vc.nondet(2, 'the event body is current / a foreign writer added a finalizer since') == 1
@@ -169,6 +169,8 @@ def A3n(vc):
         content['spec'] = {'x': 'new'}
     if shape in ('fields+status', 'both'):
         content['status'] = {'y': 'new'}
+    if shape == 'fields-status':
+        content['status'] = None        # falsy but present: the removal of the stanza
     fns = []
     if fnkind in ('block', 'block+status'):
         fns.append(functools.partial(finalizers.block_deletion, finalizer=FIN))
@@ -267,7 +269,8 @@ def A3n(vc):
         want = copy.deepcopy(content)
         got = srv.stored
         vc.ensure('status_through_subresource_iff_present',
-                  all(got.get(top, {}).get(k) == v for top in ('spec', 'status') for k, v in want.get(top, {}).items())
+                  all(got.get(top, {}).get(k) == v for top in ('spec', 'status') for k, v in (want.get(top) or {}).items())
+                  and ('status' not in want or want['status'] is not None or 'status' not in got)
                   and all(got.get('metadata', {}).get('annotations', {}).get(k) == v for k, v in want.get('metadata', {}).get('annotations', {}).items()))
 
     # ---- failures
@@ -402,7 +405,10 @@ def N2n(vc):
             if i >= budget:
                 raise AssertionError('harness: more attempts than the budget allows')
             await suspend('session.request')
-            kind = _KINDS[vc.nondet(len(_KINDS), f'attempt {i}: 200 / 429 with Retry-After / 503 / 403 / connection error / server disconnected / timeout / 404')]
+            if i > n:       # one attempt too many already (attempts_bounded fails): no further case splits
+                kind = '200'
+            else:
+                kind = _KINDS[vc.nondet(len(_KINDS), f'attempt {i}: 200 / 429 with Retry-After / 503 / 403 / connection error / server disconnected / timeout / 404')]
             ev = ['request', i, kind, None, kw]
             log.append(ev)
             if kind == '200':
